@@ -3,7 +3,7 @@
 (* generator output: the streams as bytes and one schedule (sequence of read sizes) per maximal behaviour.         *)
 EXTENDS StreamCat, Json
 CONSTANTS SI, Cache, Explore
-Bytes == Concat(Cat[SI].frames)
+Bytes == BytesOf(Cat[SI])
 Max == Cat[SI].max
 ASSUME JsonSerialize("stream.json", [si |-> SI, max |-> Max, bytes |-> Bytes, nframes |-> Len(Cat[SI].frames)])
 \* directed schedules for streams too long for exhaustive segmentation (expanded by the driver):
